@@ -160,14 +160,15 @@ def merge(parts, casefile):
 
 def harness(ctx, casefile, tier, seed):
     env = {"VERIF_TIER": tier, "VERIF_SEED": str(seed)}
-    p1, p2 = casefile + ".gater", casefile + ".e2e"
-    for p in (p1, p2, p1 + ".cov", p2 + ".cov"):
+    p1, p2, p3 = casefile + ".gater", casefile + ".e2e", casefile + ".res"
+    for p in (p1, p2, p3, p1 + ".cov", p2 + ".cov", p3 + ".cov"):
         if os.path.exists(p):
             os.remove(p)
     rc1, out1 = ctx.go_test("p2p/net/conngater", "TestVerifC10$", OV_GATER, env=dict(env, VERIF_OUT=p1), timeout=1500)
     rc2, out2 = ctx.go_test("p2p/net/conngater", "TestVerifC10E2E$", OV_E2E, env=dict(env, VERIF_OUT=p2), timeout=2400)
-    merge([p1, p2], casefile)
-    return (rc1 or rc2), out1 + "\n" + out2
+    rc3, out3 = ctx.go_test("p2p/net/conngater", "TestVerifC10Res$", OV_E2E, env=dict(env, VERIF_OUT=p3), timeout=1500)
+    merge([p1, p2, p3], casefile)
+    return (rc1 or rc2 or rc3), out1 + "\n" + out2 + "\n" + out3
 
 
 def warm(ctx):
@@ -179,6 +180,9 @@ def warm(ctx):
 def replay_harness(ctx, casefile, toks):
     if toks and toks[0] == 0:
         return ctx.go_test("p2p/net/conngater", "TestVerifC10Replay$", OV_GATER,
+                           env={"VERIF_OUT": casefile, "VERIF_REPLAY_CASE": " ".join(map(str, toks))}, timeout=600)
+    if toks and toks[0] == 2:
+        return ctx.go_test("p2p/net/conngater", "TestVerifC10ResReplay$", OV_E2E,
                            env={"VERIF_OUT": casefile, "VERIF_REPLAY_CASE": " ".join(map(str, toks))}, timeout=600)
     return ctx.go_test("p2p/net/conngater", "TestVerifC10E2EReplay$", OV_E2E,
                        env={"VERIF_OUT": casefile, "VERIF_REPLAY_CASE": " ".join(map(str, toks))}, timeout=600)
@@ -217,7 +221,7 @@ def call_s(t):
 
 
 def parse_gater(t):
-    """-> (probes, events) with events = [(call tokens, res, answers, lists tokens)]"""
+    """-> (probes, events) with events = [(call tokens, res, answers, lists tokens, (reopened answers, reopened lists))]"""
     np_ = t[1]
     pos = 2
     probes = []
@@ -230,14 +234,18 @@ def parse_gater(t):
     for _ in range(nev):
         call = t[pos:pos + 10]
         res = t[pos + 10]
-        ans = t[pos + 11:pos + 11 + np_]
-        pos += 11 + np_
-        lists = []
-        for w in (1, 5, 7):
-            c = t[pos]
-            lists.append([t[pos + 1 + i * w:pos + 1 + (i + 1) * w] for i in range(c)])
-            pos += 1 + c * w
-        evs.append((call, res, ans, lists))
+        pos += 11
+        views = []
+        for _ in range(2):  # the running gater, a gater reopened on the same datastore
+            ans = t[pos:pos + np_]
+            pos += np_
+            lists = []
+            for w in (1, 5, 7):
+                c = t[pos]
+                lists.append([t[pos + 1 + i * w:pos + 1 + (i + 1) * w] for i in range(c)])
+                pos += 1 + c * w
+            views.append((ans, lists))
+        evs.append((call, res, views[0][0], views[0][1], views[1]))
     return probes, evs
 
 
@@ -271,11 +279,58 @@ def parse_e2e(t):
     return d
 
 
+def parse_res(t):
+    """resolver case -> dict"""
+    nc = t[2]
+    pos = 3
+    d = {"calls": [call_s(t[pos + 10 * i:pos + 10 * i + 10]) for i in range(nc)]}
+    pos += 10 * nc
+    d["peer"] = t[pos]
+    nk = t[pos + 1]
+    pos += 2
+    addrs = []
+    for i in range(nk):
+        if t[pos] == 0:
+            addrs.append("%s %s" % (ip_s(t[pos + 1:pos + 6]), "wss" if t[pos + 6] else "ws"))
+            pos += 7
+            continue
+        ok, n = t[pos + 1], t[pos + 2]
+        pos += 3
+        ans = [ip_s(t[pos + 5 * j:pos + 5 * j + 5]) for j in range(n)]
+        pos += 5 * n
+        dnsk, tls, th = t[pos], t[pos + 1], t[pos + 2]
+        tip = ip_s(t[pos + 3:pos + 8]) if th else "nothing"
+        pos += 8
+        addrs.append("/dns%s/n%d.c10.example %s: the swarm's resolver %s; the transport's own lookup gives %s" % (
+            dnsk or "", i, "wss" if tls else "ws", ("answers [%s]" % ", ".join(ans)) if ok else "returns an error", tip))
+    d["addrs"] = addrs
+    ne = t[pos]
+    pos += 1
+    evs = []
+    for i in range(ne):
+        e = t[pos + 8 * i:pos + 8 * i + 8]
+        a = ip_s(e[2:7]) if e[1] else "an address without IP (a name)"
+        if e[0] == 1:
+            evs.append("InterceptPeerDial -> %s" % ("allow" if e[7] else "refuse"))
+        elif e[0] == 2:
+            evs.append("InterceptAddrDial(%s) -> %s" % (a, "allow" if e[7] else "refuse"))
+        elif e[0] == 3:
+            evs.append("transport.Dial(%s)" % a)
+        elif e[0] == 8:
+            evs.append("the transport opens a connection to %s" % a)
+        else:
+            evs.append(str(e))
+    d["events"] = evs
+    return d
+
+
 def describe(t):
     try:
+        if t and t[0] == 2:
+            return dict(parse_res(t), kind="addresses known by name (resolver case)")
         if t and t[0] == 0:
             probes, evs = parse_gater(t)
-            return {"kind": "gater", "calls": ["%s -> %s" % (call_s(c), {0: "nil", 1: "error", 2: "stopped"}.get(r, r)) for c, r, _, _ in evs][:40],
+            return {"kind": "gater", "calls": ["%s -> %s" % (call_s(c), {0: "nil", 1: "error", 2: "stopped"}.get(r, r)) for c, r, *_ in evs][:40],
                     "probes": len(probes)}
         if t and t[0] == 1:
             return dict(parse_e2e(t), kind="end-to-end")
@@ -291,10 +346,13 @@ def nontrivial(line):
         t = [int(x) for x in line.split()]
         if t[0] == 0:
             _, evs = parse_gater(t)
-            return any(0 in ans for _, _, ans, _ in evs)
+            return any(0 in e[2] for e in evs)
         if t[0] == 1:
             e = parse_e2e(t)
             return e["G_conns"] == 0
+        if t[0] == 2:
+            e = parse_res(t)
+            return any("refuse" in x for x in e["events"])
     except Exception:
         pass
     return False
@@ -303,7 +361,7 @@ def nontrivial(line):
 def canon_history(evs, upto):
     """canonical form of the calls up to and including event `upto`, with peers / addresses
     renamed in order of first use"""
-    return "; ".join(call_s(c) for c, _, _, _ in evs[:upto + 1])
+    return "; ".join(call_s(e[0]) for e in evs[:upto + 1])
 
 
 def key(tag, toks, d):
@@ -313,10 +371,14 @@ def key(tag, toks, d):
             probes, evs = parse_gater(toks)
             i, clause = d[1], d[2]
             where = ""
-            if clause == 1 and len(d) > 3 and 0 <= d[3] < len(probes):
+            if clause in (1, 5) and len(d) > 3 and 0 <= d[3] < len(probes):
                 where = probe_s(probes[d[3]])
                 where = re.sub(r", template \d+", "", where)
             return "C10:gater:clause%d:%s:%s" % (clause, where, canon_history(evs, i))
+        if toks[0] == 2:
+            e = parse_res(toks)
+            ev = e["events"][d[2]] if len(d) > 2 and 0 <= d[2] < len(e["events"]) else ""
+            return "C10:resolver:clause%s:%s:%s:%s" % (d[1], ev, "; ".join(e["addrs"]), "; ".join(e["calls"]))
         if toks[0] == 1:
             e = parse_e2e(toks)
             return "C10:e2e:%s:tpt%s:ctx=%s:%s:%s" % (e["dir"].split()[0], e["transport"], e["dial_context"], d[1:3], "; ".join(e["calls"]))
@@ -327,6 +389,13 @@ def key(tag, toks, d):
 
 CLAUSE = {1: "an Intercept* answer contradicts the rules whose calls returned", 2: "ListBlockedPeers contradicts them",
           3: "ListBlockedAddrs contradicts them", 4: "ListBlockedSubnets contradicts them",
+          5: "memory and datastore disagree: an Intercept* answer of the running gater differs from that of a gater reopened on the same datastore",
+          6: "memory and datastore disagree: ListBlockedPeers of the running gater differs from that of a gater reopened on the same datastore",
+          7: "memory and datastore disagree: ListBlockedAddrs of the running gater differs from that of a gater reopened on the same datastore",
+          8: "memory and datastore disagree: ListBlockedSubnets of the running gater differs from that of a gater reopened on the same datastore",
+          30: "outbound to a blocked peer: a transport was handed an address / opened a connection",
+          31: "outbound: a transport was handed an address whose IP is blocked",
+          32: "outbound: a transport opened a connection to a blocked IP",
           10: "outbound: transport dial to a blocked peer", 11: "outbound: connection to a blocked peer admitted",
           12: "outbound: transport dial to a blocked address", 13: "outbound: connection over a blocked address admitted",
           20: "inbound from a blocked address got past accept", 21: "inbound from a blocked address admitted",
@@ -340,7 +409,15 @@ def what(tag, toks, d):
             s = "after %s: %s" % (canon_history(evs, d[1]), CLAUSE.get(d[2], d))
             if d[2] == 1 and 0 <= d[3] < len(probes):
                 s += " (%s answered %s)" % (probe_s(probes[d[3]]), "allow" if evs[d[1]][2][d[3]] else "refuse")
+            if d[2] == 5 and 0 <= d[3] < len(probes):
+                s += " (%s: running gater %s, reopened gater %s)" % (
+                    probe_s(probes[d[3]]), "allows" if evs[d[1]][2][d[3]] else "refuses",
+                    "allows" if evs[d[1]][4][0][d[3]] else "refuses")
             return s
+        if toks[0] == 2 and d[0] == 902:
+            e = parse_res(toks)
+            ev = e["events"][d[2]] if len(d) > 2 and 0 <= d[2] < len(e["events"]) else ""
+            return "G knows the peer by [%s]; after %s: %s (%s)" % ("; ".join(e["addrs"]), "; ".join(e["calls"]) or "no rule calls", CLAUSE.get(d[1], d), ev)
         if toks[0] == 1 and d[0] == 902:
             e = parse_e2e(toks)
             return "%s [dial context: %s], after %s: %s" % (e["dir"], e["dial_context"], "; ".join(e["calls"]), CLAUSE.get(d[1], d))
@@ -358,6 +435,7 @@ if __name__ == "__main__":
         "the datastore is a key-value map with atomic Put/Delete and prefix Query (go-datastore MapDatastore behind namespace.Wrap) that stores a COPY of the value it is given (BlockAddr passes the caller's own slice []byte(ip) to Put; the harness overwrites every net.IP / *net.IPNet after the call returns, so its datastore wrapper copies as a persistent store does): modelled, not verified",
         "each gater method is one critical section; a process stop is modelled at the only point where it matters (between the datastore write and the in-memory update) and before the write",
         "pipelines: every transport dial / handshake that is not gated is assumed to succeed (worst case for the property)",
+        "resolver cases: a transport handed an address that starts with a name resolves the name itself and connects to the result (websocket.maDial -> net.ResolveTCPAddr); the harness's recording Dial stands for that and for the operating system's resolver; madns / the swarm's resolver chain are the real code",
     ]
     standard_flow(ctx, dict(
         consts=consts,
